@@ -16,27 +16,27 @@ Definition MacroCrash (conv : list N -> list Z) (f : fmt) (content : list N) (s 
   exists tf, tfmt_of f = Some tf /\ FileLoadProofs.text_overflow tf (fs_of s) (conv content).
 (* not Known 3: whatever the sixel oracle reports is harmless (no sixel, or font 0 at least 1 x 1 and every pixel rectangle inside i32) *)
 Definition SaneOracle (sixels : sixel_oracle) : Prop :=
-  forall f content s, let '(fw, fh, done) := sixels f content s in FileLoadProofs.SixelOk fw fh done.
+  forall f content s, let '(fw, fh, done, _) := sixels f content s in FileLoadProofs.SixelOk fw fh done.
 
 Lemma text_load_model_total conv sixels f content s :
   SaneOracle sixels -> sauce_nonneg s -> text_load_model conv sixels f content s = OPanic -> MacroCrash conv f content s.
 Proof.
   intros Ho Hs. unfold text_load_model, MacroCrash. destruct (tfmt_of f) as [tf|] eqn:Ef; [|discriminate].
-  specialize (Ho f content s). destruct (sixels f content s) as [[fw fh] done].
-  pose proof (FileLoadProofs.text_load_total_proof tf (fs_of s) fw fh done (conv content) (fs_of_nonneg s Hs) Ho) as G.
-  destruct (FileLoad.text_load tf (fs_of s) fw fh done (conv content)); intro H; [discriminate|contradiction|].
+  specialize (Ho f content s). destruct (sixels f content s) as [[[fw fh] done] serr].
+  pose proof (FileLoadProofs.text_load_total_proof tf (fs_of s) fw fh done serr (conv content) (fs_of_nonneg s Hs) Ho) as G.
+  destruct (FileLoad.text_load tf (fs_of s) fw fh done serr (conv content)); intro H; [discriminate|discriminate|contradiction|].
   exists tf. split; [reflexivity|exact G].
 Qed.
 (* formats without an ANSI parser inside cannot overflow: ASCII, PETSCII, ATASCII files always load *)
 Lemma text_load_model_standalone conv sixels f content s :
-  SaneOracle sixels -> sauce_nonneg s -> (f = FAsc \/ f = FSeq \/ f = FAta) -> text_load_model conv sixels f content s = OOk.
+  SaneOracle sixels -> sauce_nonneg s -> (f = FAsc \/ f = FSeq \/ f = FAta) -> text_load_model conv sixels f content s <> OPanic.
 Proof.
   intros Ho Hs Hf. unfold text_load_model.
   assert (exists tf, tfmt_of f = Some tf /\ (tf = FileLoad.TAsc \/ tf = FileLoad.TSeq \/ tf = FileLoad.TAta)) as (tf & Ef & Ht)
     by (destruct Hf as [->|[->| ->]]; eexists; split; try reflexivity; auto).
-  rewrite Ef. specialize (Ho f content s). destruct (sixels f content s) as [[fw fh] done].
-  destruct (FileLoadProofs.text_load_standalone_total tf (fs_of s) fw fh done (conv content) Ht (fs_of_nonneg s Hs) Ho) as (t & l & E).
-  rewrite E. reflexivity.
+  rewrite Ef. specialize (Ho f content s). destruct (sixels f content s) as [[[fw fh] done] serr].
+  destruct (FileLoadProofs.text_load_standalone_total tf (fs_of s) fw fh done serr (conv content) Ht (fs_of_nonneg s Hs) Ho) as [(t & l & E)|E];
+    rewrite E; discriminate.
 Qed.
 
 Section Dispatch.
